@@ -16,4 +16,9 @@ OBLIGATIONS = [
      bound='ANY corner table of 2 faces over <= 4 vertices satisfying the C13 invariants (assumed), 0..1 attribute connectivity with arbitrary corner->vertex map and seam flags, arbitrary boundary flags',
      covers='MeshEdgebreakerDecoderImpl<MeshEdgebreakerTraversalDecoder>::AssignPointsToCorners on real Mesh / MeshEdgebreakerDecoder / CornerTable / MeshAttributeCornerTable objects; Mesh::SetNumFaces, SetFace, PointCloud::set_num_points'),
 ]
-META = {}
+META = {
+  'assumptions': ['C03.seq_conn: compressed-index path (DecodeSymbols) cut by a stub returning false',
+                  'C03.eb_attr_claim: headers that go on to build a traversal sequencer are cut (decoder type per-corner with a non-depth-first traversal method only)',
+                  'C03.eb_assign pre-state: corner table satisfies the C13 invariants (symmetric edge-consistent opposite; representative corner of each vertex is the left-most corner of an open fan or any corner of a closed fan; every corner lies on the fan of its vertex); a vertex not flagged in is_vert_hole_ is interior; num_connectivity_verts == number of vertices of the table'],
+  'outside': ['the symbol-driven Edgebreaker connectivity decoding loop (std::unordered_map) and whether it establishes the assumed invariants for every accepted stream', 'kd-tree decoder output', 'point -> attribute value maps built by the attribute decoders', 'attribute storage sizes'],
+}
